@@ -244,7 +244,8 @@ func (selector *CoinSelector) SortedSearch() ([]*Utxo, uint64, uint64) {
 				pass = 1
 			}
 		case 1:
-			feeReplaced, lr := selector.getLossRatio(append(selection[:len(selection)-1:cap(selection)-1], u))
+			cand := append(append([]*Utxo{}, selection[:len(selection)-1]...), u)
+			feeReplaced, lr := selector.getLossRatio(cand)
 			if sumTemp := sum - selection[len(selection)-1].Value + u.Value; (sumTemp == selector.target ||
 				sumTemp >= selector.target+selector.mc) && lr < selector.maxP {
 				fee, sum = feeReplaced, sumTemp
